@@ -17,7 +17,7 @@ import tempfile
 import warnings
 import numpy as np
 
-from . import core, zoo, obs, faults
+from . import core, zoo, obs, faults, simdisk
 from .core import HarnessError
 from .c03_history import _quiet
 
@@ -36,6 +36,10 @@ TENANT_VARIANTS = [
     {"zoo": "Z12", "wingbox": False}, {"zoo": "Z13"}, {"zoo": "Z14"}, {"zoo": "Z15"}, {"zoo": "Z3", "tail": True},
     {"zoo": "Z5", "user_meshes": True}, {"zoo": "Z13", "compressible": True}, {"zoo": "Z13", "user_sref": True},
     {"zoo": "Z8", "pm": True}, {"zoo": "Z9", "rotational": True}, {"zoo": "Z1", "user_sref": True},
+    {"zoo": "Z1", "right": True}, {"zoo": "Z4", "rotational": True}, {"zoo": "Z4", "right": True}, {"zoo": "Z5", "tc": True},
+    {"zoo": "Z5", "sym": False, "nsec3": True, "tc": True}, {"zoo": "Z8", "geo": True},
+    {"zoo": "Z11", "compressible": True, "rotational": True}, {"zoo": "Z6", "extras": True, "full": True},
+    {"zoo": "Z13", "write": True}, {"zoo": "Z13", "write": True}, {"zoo": "Z13", "write": True, "compressible": True},
 ]
 
 # ------------------------------------------------------------------------------------------------
@@ -757,7 +761,11 @@ def _gen(seed, tier, opts):
             elif r < 0.8:
                 ops.append({"op": "linearize"})
             elif r < 0.9:
-                ops.append({"op": "abort", "frac": round(rng.uniform(0.05, 0.95), 3)})
+                if "disk_dir" in model.notes and rng.random() < 0.7:
+                    # this tenant's disk fails during an evaluation (its directory only): gone, read-only or full
+                    ops.append({"op": "disk", "fault": rng.choice(["enoent", "eacces", "enospc"]), "after": rng.choice([0, 60, 400])})
+                else:
+                    ops.append({"op": "abort", "frac": round(rng.uniform(0.05, 0.95), 3)})
                 ops.append({"op": "run"})
             else:
                 comp_paths = [c.pathname for c in obs.components(model.prob) if obs.is_oas(c)]
@@ -867,6 +875,9 @@ class Tenant:
             stats["component_calls"] = stats.get("component_calls", 0) + inj.count
             self.converged = True
             obs_out.append(("run", obs.read_outputs(prob)))
+            if "disk_dir" in self.model.notes:
+                obs_out.append(("files", simdisk.as_arrays(simdisk.read_files(prob))))
+                stats["solution_files_observed"] = stats.get("solution_files_observed", 0) + 1
         elif k == "totals":
             if not self.converged:
                 return
@@ -905,6 +916,20 @@ class Tenant:
                     self.converged = False
             if inj.fired:
                 stats["abort_fired"] = stats.get("abort_fired", 0) + 1
+        elif k == "disk":
+            d = self.model.notes.get("disk_dir")
+            if d is None:
+                return
+            simdisk.DISK.arm(d, op["fault"], op.get("after"))
+            try:
+                with _quiet():
+                    prob.run_model()
+                self.converged = True
+            except Exception:  # loud failure of this tenant's evaluation (OpenMDAO re-wraps the OSError)
+                self.converged = False
+                stats["disk_fault_fired"] = stats.get("disk_fault_fired", 0) + 1
+            finally:
+                simdisk.DISK.disarm(d)
         elif k == "drop":
             self.model = None
             self.dead = True
@@ -994,7 +1019,11 @@ def _cmp_obs(a, b, rt):
             if np.array_equal(va, vb):
                 bit += 1
                 continue
-            ok, err, scale = obs.cmp_arrays(va, vb, rt, 0.0)
+            if ka == "files":
+                # printed with six digits after the point: a last digit apart is round-off, anything more is not
+                ok, err, scale = simdisk.close_enough(va, vb)
+            else:
+                ok, err, scale = obs.cmp_arrays(va, vb, rt, 0.0)
             if not ok:
                 bad.append(("differs", i, ka, name, err, scale))
     return bad, n, bit
